@@ -97,6 +97,12 @@ def impl_to_spec(res, prop, spec, cfg, trace, name, nshards=10, env=None, keyfn=
 
 
 def replay_events(prop, payload):
+    if payload.get("kind") not in (None, "events") and payload.get("case"):
+        return replay_case(prop, payload)
+    return _replay_events(prop, payload)
+
+
+def _replay_events(prop, payload):
     """re-validate a single recorded event (the event carries its full input and the implementation's output;
     to re-execute the implementation run the check again)"""
     res = Result(prop, "quick", 0, "model_checking")
@@ -229,4 +235,45 @@ def c08(tier, seed):
                     "per_cfg": r["per_cfg"], "samples": r["samples"], "exhaustive": True,
                     "trusted_base": ["TLC", "replayer comparison", "observer residuals"]}
     res.assumptions = ["after a rejected partial update of a target nothing is asserted about that target's dependent copies until it is fully rewritten (the property leaves it open)"]
+    return res
+
+
+def c19(tier, seed):
+    res = Result("C19", tier, seed, "fault_enumeration")
+    wd = workdir("C19")
+    tr, cs = [os.path.join(wd, "json" + x) for x in (".ndjson", ".cases.ndjson")]
+    p = run_vh(["json", "--seed", seed, "--count", 300 if tier == "quick" else 5000, "--tier", tier, "--out", tr, "--cases", cs, "--dir", wd])
+    meta = json.loads(p.stdout.strip().splitlines()[-1])
+    v = validate_trace("JsonIO.tla", "JsonIO.cfg", tr, nshards=10, boundary=lambda e: True)
+    lines = read_ndjson(tr)
+    if not v["ok"]:
+        cases = {c["run"]: c for c in read_ndjson(cs)}
+        groups = {}
+        for rj in v["rejects"]:
+            e = rj["event"] or {}
+            if e.get("ev") == "Fault":
+                cls = f"fault:{e.get('kind')}:{e.get('site') if e.get('kind') == 'semantic' else ''}:{e.get('outcome')}"
+            else:
+                cls = "roundtrip:" + ("panic" if "panic" in e else "mismatch")
+            groups.setdefault(cls, []).append(e)
+        for cls, evs in groups.items():
+            e = evs[0]
+            payload = {"kind": "json-replay" if e.get("ev") == "RoundTrip" else "events", "prop": "C19", "event": {k: e[k] for k in e if k != "pairs"}, "count": len(evs),
+                       "spec": "JsonIO.tla", "cfg": "JsonIO.cfg", "case": cases.get(e.get("run")) if e.get("ev") == "RoundTrip" else None}
+            res.violation(("json-" + cls).replace(" ", "_").replace("/", "_")[:90], payload,
+                          f"{len(evs)} events: {cls} {str(e.get('msg', e.get('panic', '')))[:160]}", key=cls.replace(" ", "_"))
+    kinds = {}
+    for e in lines:
+        k = e.get("kind", "roundtrip") if e["ev"] == "Fault" else "roundtrip"
+        kinds[k] = kinds.get(k, 0) + 1
+    nontriv = len({(e.get("base"), e.get("kind"), e.get("site")) for e in lines if e["ev"] == "Fault" and e.get("json_ok")}) + meta["roundtrips"]
+    res.coverage = {"evaluations": len(lines), "distinct_nontrivial": nontriv,
+                    "rule": "round trips: save/load of random problems (all cone types, empty P, extreme finite values, settings lattice incl. "
+                            "finite/infinite time_limit, presolve reductions) compared field by field and by solving; faults on 5 base files: "
+                            "truncation at byte offsets, deletion of single bytes, 23 semantic single-site corruptions; each faulty file is "
+                            "classified by JsonIO.tla (Canonical/dimension predicates on independently parsed fields) and the load outcome "
+                            "must be Err for not-JSON/schema/structure/dimension faults, Ok for still-valid files, never a panic; "
+                            "non-trivial = faults that leave the file parseable as JSON + all round trips; quick samples byte offsets by seed, thorough takes all",
+                    "samples": [{k: e[k] for k in e if k not in ("pairs", "text", "P", "A")} for e in sample(lines, 3)],
+                    "by_kind": kinds, "trace_events": v["events"], "exhaustive": tier == "thorough"}
     return res
